@@ -82,6 +82,7 @@ def run(eng, ctx):
               found=f"missing {sorted(want - msm_keys)} extra {sorted(msm_keys - want)}", file=eng.repo.relpath("rtcmtypes_get_msm"), line=0)
     true_keys = set()
     undec = 0
+    nraise = 0
     # every 12-bit message number (decimal) plus every 4076 sub-type identity
     universe = [str(n) for n in range(4096) if n != fr["igs_msgnum"]] + [f"{fr['igs_msgnum']}_{k:03d}" for k in range(256)] + [str(fr["igs_msgnum"])]
     for key in universe:
@@ -97,6 +98,14 @@ def run(eng, ctx):
             pick = normal if key in T.msgids else on_exc
             if len(pick) == 1 and is_const(pick[0].term) and (key in T.msgids or pick[0].term[1] is False):
                 rets2 = pick
+        from .util import certain_raise as _cr
+
+        raising = next((r_ for r_ in (_cr(e.term) for e in rets2) if r_), None)
+        if raising:
+            nraise += 1
+            if nraise <= 3:
+                ctx.bad("C15.D5", f.qualname, f"predicate for identity {key!r}", expected="True or False for every identity a payload can carry", found=f"raises {raising}", **eng.loc(f, rets2[0].node))
+            continue
         if len(rets2) == 1 and is_const(rets2[0].term):
             if rets2[0].term[1]:
                 true_keys.add(key)
